@@ -48,6 +48,8 @@ def run(pid, tier):
         for cfg, db in dbs.items():
             ctx.cfg = cfg
             mod.run(ctx, db, tier)
+            from coclint.props import shared as _shared
+            _shared.built_on(ctx, db, pid)       # invariants of the generic machinery the feature is built on (skips what the property already claims)
         if not ctx.violations:
             ctx.check_floors()      # a concrete violation takes precedence over a missed instance-count floor
     except Broken as ex:
